@@ -1298,6 +1298,15 @@ def generate(ctx, shard=0, nshards=1):
             v = [a[:2] if isinstance(a, list) else a for a in base]
             if lists:
                 ck.must_reject(byq[q], v, 'two-entries', ('ValueError',))
+            # documented: "if the number of entries is even, the last entry is discarded" and "list (or tuple)": every
+            # list cut to an even count (four entries), as lists and as tuples, and the odd count given as tuples - the
+            # caller's sequences stay as they were and the call is total (round 7: C20-h popped the caller's lists)
+            if lists:
+                for tagf, mk in (('even-lists', lambda a: list(a[:4])), ('even-tuples', lambda a: {'tuple': list(a[:4])}),
+                                 ('odd-tuples', lambda a: {'tuple': list(a)})):
+                    v = [mk(a) if isinstance(a, list) else a for a in base]
+                    ck.call_in_domain(byq[q], v, 'boundary:' + tagf)
+                    ck.repeat(byq[q], v)
         for (q, specs, tag) in boundary_calls():
             if q in byq and tag.startswith('oor:'):
                 ck.out_of_range(byq[q], specs, tag)
